@@ -11,8 +11,9 @@ Property theorems only (helper lemmas: `Lemmas/Trotter*.lean`; executable model:
 Proved for every size / length / term list / parameter value:
 * `fsm_sum`, `fsm_sum_specs`, `fsm_sum_complex`, `fsm_accepts_iff`, `fsm_tables` — the automaton `from_pauli_sum` builds (before
   compression) has, at every basis configuration pair, the path sum `Σ coeff · Π P_i[σ_i,σ'_i]`;
-* `fsm_boson_sum` — the hand-written `bose_hubbard` tensors give the documented chain for every `L ≥ 2`
-  (`boson_length_one_broken`: `L = 1` is broken in the code as it is);
+* `fsm_boson_sum`, `fsm_transmon_sum` — the hand-written `bose_hubbard` and `coupled_transmon` tensors give the documented
+  chain for every `L ≥ 1` (old variants before the fixes D20/D21: `transmon_wrong_at_5`, `transmon_even_length_broken_old`,
+  `boson_length_one_broken_old`);
 * `ising_bonds_cover`, `ising_bonds_match_mpo`, `heisenberg_bonds_cover`, `ising_step_generators`, `heisenberg_step_blocks`,
   `heisenberg_step_generators(_nonzero)` — one Trotter step of the chain circuits is a product of `exp(-i·dt·c·P)` over a
   rearrangement of exactly the terms the MPO builder of the same name emits (signs, boundary condition, `L = 2` periodic
@@ -22,8 +23,6 @@ Proved for every size / length / term list / parameter value:
   builders against the documented coefficients, 1-D vs 2-D Hubbard on a chain, structure of the hopping block.
 
 Partial (stated, with what is missing):
-* `fsm_transmon_sum_partial` — `coupled_transmon` is the documented chain only for `length = 3`; the general statement is
-  false for the code as it is (`transmon_wrong_at_5`, `transmon_even_length_broken`).
 * "converges as the step shrinks" is an analytic limit: proved is that each step is the first-order product formula of
   exactly the Hamiltonian's terms (Lie–Trotter consistency is cited); the limit is measured by step halving in the check.
 * that the CNOT-ladder block of `lri_closed_form` equals `exp(-i α/2 P Z…Z P)`, compression, dense/sparse agreement and the
@@ -338,16 +337,22 @@ example : addLongRange [] 0 2 (some true) (1/3) =
 section blk
 variable {K : Type} [CommSemiring K] {α : Type}
 
-/-- **C07 (`fsm_boson_sum`)** For every chain length `L ≥ 2`, every local dimension (`α`), every value of the blocks
+/-- **C07 (`fsm_boson_sum`)** For every chain length `L ≥ 1`, every local dimension (`α`), every value of the blocks
     (`B`, any commutative semiring; the zero block is zero) and every configuration pair, the path sum through the
-    tensors `bose_hubbard` builds (row 0 / full 4×4 table / column 3) is the documented chain
-    `Σ_i h_i + Σ_i (a†_i·(-J a)_{i+1} + a_i·(-J a†)_{i+1})` with identities elsewhere — given here both as the
+    tensors `bose_hubbard` builds (row 0 / full 4×4 table / column 3; a single site: the block `h_loc`) is the
+    documented chain `Σ_i h_i + Σ_i (a†_i·(-J a)_{i+1} + a_i·(-J a†)_{i+1})` with identities elsewhere, written as the
     explicit sums `bhChainSum` over sites and bonds. -/
 theorem fsm_boson_sum (B : Nat → Blk → α → α → K) (σ σ' : Nat → α) (hz : ∀ i a b, B i .zero a b = 0)
-    (L : Nat) (hL : 2 ≤ L) :
+    (L : Nat) (hL : 1 ≤ L) :
     blkPathSum B (bhTensors L) σ σ' = some (bhChainSum B σ σ' 0 L) := by
+  rw [← bhChain_eq_sum]
+  rcases Nat.lt_or_ge L 2 with h1 | h2
+  · have : L = 1 := by omega
+    subst this
+    rw [bhTensors_one]
+    simp [blkPathSum, blkVals, blkApply, dot, bhChain, bv]
   obtain ⟨n, rfl⟩ : ∃ n, L = n + 2 := ⟨L - 2, by omega⟩
-  rw [← bhChain_eq_sum, bhTensors_succ_succ]
+  rw [bhTensors_succ_succ]
   unfold blkPathSum
   rw [blkVals, bh_vals B σ σ' hz n 1]
   simp only [blkApply, dot, List.map_cons, List.map_nil, bhChain, bv]
@@ -362,56 +367,88 @@ theorem fsm_boson_sum (B : Nat → Blk → α → α → K) (σ σ' : Nat → α
 
 example : ∀ i a b, onesB i .zero a b = 0 := fun _ _ _ => rfl
 example : blkPathSum onesB (bhTensors 4) (fun _ => ()) (fun _ => ()) = some 10 ∧
-    bhChainSum onesB (fun _ => ()) (fun _ => ()) 0 4 = 10 := by decide
-example : blkPathSum onesB (ctTensors 3) (fun _ => ()) (fun _ => ()) = some 5 ∧
-    blkPathSum onesB (ctTensors 5) (fun _ => ()) (fun _ => ()) = some 14 ∧
-    ctChainSum onesB (fun _ => ()) (fun _ => ()) 5 = 9 := by decide
+    bhChainSum onesB (fun _ => ()) (fun _ => ()) 0 4 = 10 ∧
+    blkPathSum onesB (bhTensors 1) (fun _ => ()) (fun _ => ()) = some 1 := by decide
 
-/-- `bose_hubbard(1, …)` as written returns a single tensor with left bond 4: there is no path sum (and `to_matrix`
-    raises) — the registered finding `C07:bose_hubbard:len1`. -/
-theorem boson_length_one_broken (B : Nat → Blk → α → α → K) (σ σ' : Nat → α) :
-    blkPathSum B (bhTensors 1) σ σ' = none ∧ blkShapes (bhTensors 1) = [(4, 1)] := by
+/-- **old variant (code as found, before 522fc8a, D21)**: `bose_hubbard(1, …)` returned a single tensor with left
+    bond 4 — no path sum, `to_matrix` raised. -/
+theorem boson_length_one_broken_old (B : Nat → Blk → α → α → K) (σ σ' : Nat → α) :
+    blkPathSum B (bhTensorsOld 1) σ σ' = none ∧ blkShapes (bhTensorsOld 1) = [(4, 1)] := by
   constructor
-  · simp [blkPathSum, bhTensors, bhFull_eq, blkVals, blkApply]
+  · simp [blkPathSum, bhTensorsOld, bhFull_eq, blkVals, blkApply]
   · decide
 
-/-- **C07 (`fsm_transmon_sum_partial`)** The `coupled_transmon` tables give the documented qubit–resonator–qubit
-    Hamiltonian `h_q + h_r + h_q + g x_q x_r + x_r g x_q` for `length = 3`, for all block values and dimensions.
-    (The full statement — the same for every odd length — is FALSE for the code as it is, see
-    `transmon_wrong_at_5`; even lengths have no path sum at all, see `transmon_even_length_broken`.) -/
-theorem fsm_transmon_sum_partial (B : Nat → Blk → α → α → K) (σ σ' : Nat → α) (hz : ∀ i a b, B i .zero a b = 0) :
-    blkPathSum B (ctTensors 3) σ σ' = some (ctChain3 B σ σ') := by
-  have h3 : ctTensors 3 = [[[.hq, .id, .gx, .id]], fullMat ctRes, [[.id], [.gx], [.id], [.hq]]] := by decide
-  have hr : fullMat ctRes = [[.id, .zero, .zero, .zero], [.zero, .zero, .hr, .zero], [.xr, .zero, .zero, .zero],
-      [.zero, .xr, .zero, .id]] := by decide
-  rw [h3, hr]
-  simp only [blkPathSum, blkVals, blkApply, dot, List.map_cons, List.map_nil, hz, ctChain3, bv]
-  simp only [List.getLast?_cons_cons, List.getLast?_singleton, Option.map_some, List.all_cons, List.all_nil,
-    List.length_singleton, decide_true, Bool.and_self, if_true, Option.some.injEq]
+/-- **C07 (`fsm_transmon_sum`)** For EVERY chain length `L ≥ 1` — odd (ends on a qubit), even (ends on a resonator) and
+    the single qubit —, all local dimensions, all block values (zero block zero) and every configuration pair, the path
+    sum through the tensors `coupled_transmon` builds is the documented chain
+    `Σ_i h_i + Σ_i c_i c_{i+1}` (`h` = `h_q` on even / `h_r` on odd sites, `c` = `g·x_q` / `x_r`), identities elsewhere,
+    written as the explicit sums `ctChainSum` over sites and bonds. -/
+theorem fsm_transmon_sum (B : Nat → Blk → α → α → K) (σ σ' : Nat → α) (hz : ∀ i a b, B i .zero a b = 0)
+    (L : Nat) (hL : 1 ≤ L) :
+    blkPathSum B (ctTensors L) σ σ' = some (ctChainSum B σ σ' 0 L) := by
+  rw [← ctChain_eq_sum]
+  rcases Nat.lt_or_ge L 2 with h1 | h2
+  · have : L = 1 := by omega
+    subst this
+    have : ctTensors 1 = [[[.hq]]] := by decide
+    rw [this]
+    simp [blkPathSum, blkVals, blkApply, dot, ctChain, ctRest, idProd, bv, ctLocal]
+  obtain ⟨m, rfl⟩ : ∃ m, L = m + 2 := ⟨L - 2, by omega⟩
+  have hts : ctTensors (m + 2) =
+      [[.hq, .id, .gx, .id]] :: ((List.range' 1 m).map (ctSite (m + 2)) ++ [ctSite (m + 2) (m + 1)]) := by
+    unfold ctTensors
+    rw [List.range_eq_range', List.range'_succ, List.map_cons, ctSite_first _ (by omega), Nat.zero_add,
+      List.range'_concat, List.map_append]
+    simp [Nat.add_comm]
+  have hvals := ct_vals B σ σ' hz (m + 2) m 1 (le_refl 1) (by omega)
+  unfold blkPathSum
+  rw [hts, blkVals, ← List.map_singleton (f := ctSite (m + 2)), ← List.map_append,
+    show List.range' 1 m ++ [m + 1] = List.range' 1 (m + 1) by rw [List.range'_concat]; simp [Nat.add_comm], hvals]
+  have hlast : (([[Blk.hq, .id, .gx, .id]] :: (List.map (ctSite (m + 2)) (List.range' 1 (m + 1)))).getLast?.map
+      fun t => t.all fun row => decide (row.length = 1)) = some true := by
+    rw [List.range'_concat, List.map_append, List.map_singleton, getLast?_cons_append_singleton,
+      show 1 + 1 * m = m + 1 by omega, ctSite_last (m + 2) (m + 1) (by omega) (by omega)]
+    split <;> rfl
+  simp only [show ¬ (1 % 2 = 0) by decide, if_false, blkApply, dot, List.map_cons, List.map_nil, bv]
+  rw [if_pos hlast]
+  congr 1
+  cases m with
+  | zero => simp only [ctChain, ctRest, idProd, ctLocal, ctCoupl, bv]; simp; ring
+  | succ j => simp only [ctChain, ctRest, idProd, ctLocal, ctCoupl, bv]; simp; ring
+
+example : blkPathSum onesB (ctTensors 3) (fun _ => ()) (fun _ => ()) = some 5 ∧
+    blkPathSum onesB (ctTensors 5) (fun _ => ()) (fun _ => ()) = some 9 ∧
+    blkPathSum onesB (ctTensors 4) (fun _ => ()) (fun _ => ()) = some 7 ∧
+    ctChainSum onesB (fun _ => ()) (fun _ => ()) 0 5 = 9 := by decide
+
+/-- for `length = 3` the documented transmon chain is `h_q + h_r + h_q + g x_q x_r + x_r g x_q` -/
+theorem ctChainSum_three (B : Nat → Blk → α → α → K) (σ σ' : Nat → α) :
+    ctChainSum B σ σ' 0 3 =
+      bv B σ σ' 0 .hq * bv B σ σ' 1 .id * bv B σ σ' 2 .id
+        + bv B σ σ' 0 .id * bv B σ σ' 1 .hr * bv B σ σ' 2 .id
+        + bv B σ σ' 0 .id * bv B σ σ' 1 .id * bv B σ σ' 2 .hq
+        + bv B σ σ' 0 .gx * bv B σ σ' 1 .xr * bv B σ σ' 2 .id
+        + bv B σ σ' 0 .id * bv B σ σ' 1 .xr * bv B σ σ' 2 .gx := by
+  simp [ctChainSum, List.range_succ, idProd, ctLocal, ctCoupl]
   ring
 
-/-- **counterexample (code as it is)**: at `length = 5` the `coupled_transmon` tables do NOT give the documented chain:
-    with every non-zero block equal to 1 the documented chain has 5 + 4 = 9 terms, the automaton has 14 paths
-    (products like `h_q ⊗ 1 ⊗ h_q` appear, `h_r` terms are lost) — the registered finding `C07:coupled_transmon:len!=3`. -/
+/-- **old variant (code as found, before 201a5d0, D20) — counterexample**: at `length = 5` the old `coupled_transmon`
+    tables did NOT give the documented chain: with every non-zero block equal to 1 the documented chain has 5 + 4 = 9
+    terms, the old automaton had 14 paths (products like `h_q ⊗ 1 ⊗ h_q` appeared, `h_r` terms were lost). -/
 theorem transmon_wrong_at_5 :
     ∃ (B : Nat → Blk → Unit → Unit → Nat), (∀ i a b, B i .zero a b = 0) ∧
-      blkPathSum B (ctTensors 5) (fun _ => ()) (fun _ => ()) ≠ some (ctChainSum B (fun _ => ()) (fun _ => ()) 5) := by
+      blkPathSum B (ctTensorsOld 5) (fun _ => ()) (fun _ => ()) ≠ some (ctChainSum B (fun _ => ()) (fun _ => ()) 0 5) := by
   refine ⟨onesB, fun _ _ _ => rfl, ?_⟩
   decide
 
-/-- for `length = 3` the explicit-sum form of the documented transmon chain is the five-term expression above -/
-theorem ctChainSum_three (B : Nat → Blk → α → α → K) (σ σ' : Nat → α) : ctChainSum B σ σ' 3 = ctChain3 B σ σ' := by
-  simp [ctChainSum, ctChain3, List.range_succ, idProd, ctLocal, ctCoupl]
-  ring
-
-/-- even lengths (which the docstring recommends) end on a resonator tensor with right bond 4: no path sum,
-    `to_matrix` raises — part of the registered finding `C07:coupled_transmon:len!=3`. -/
-theorem transmon_even_length_broken (n : Nat) (hn : 1 ≤ n) :
-    (blkShapes (ctTensors (2 * n))).getLast? = some (4, 4) := by
+/-- **old variant (before 201a5d0)**: even lengths ended on a resonator tensor with right bond 4 — no path sum,
+    `to_matrix` raised. -/
+theorem transmon_even_length_broken_old (n : Nat) (hn : 1 ≤ n) :
+    (blkShapes (ctTensorsOld (2 * n))).getLast? = some (4, 4) := by
   obtain ⟨m, rfl⟩ : ∃ m, n = m + 1 := ⟨n - 1, by omega⟩
   have : 2 * (m + 1) = (2 * m + 1) + 1 := by omega
   rw [this]
-  unfold blkShapes ctTensors
+  unfold blkShapes ctTensorsOld
   rw [List.range_succ, List.map_append, List.map_append, List.getLast?_append]
   have hodd : (2 * m + 1) % 2 ≠ 0 := by omega
   simp only [List.map_cons, List.map_nil, hodd, if_false, List.getLast?_singleton, Option.some_or]
